@@ -208,7 +208,12 @@ def prepare_xfer(obs, x):
                 make_dir_destination(path)
             elif t.get('preexisting'):
                 x.prev = b'previous-content-' + str(x.idx).encode()
-                with open(path, 'wb') as f:
+                real = path
+                if t.get('symlink') and t.get('same_dest_as') is None:
+                    # the destination name is a symbolic link to an ordinary file holding the previous content
+                    real = os.path.join(tmpdir, f'linktarget-{x.idx}')
+                    os.symlink(real, path)
+                with open(real, 'wb') as f:
                     f.write(x.prev)
             x.dest = path
         elif dst == 'seekable':
